@@ -24,7 +24,7 @@ func init() { core.Register(check{}) }
 func (check) ID() string    { return "C04" }
 func (check) Level() string { return "model_checking" }
 func (check) Rule() string {
-	return "explicit-state BFS over edit histories on the real generic.Node / generic.Value: initial states = every shape of T(1) u T(2) (thorough + T(3) subset) x container size 0..2 (thorough 0..3); operations at every state = for every node position {SetByPath, ReplaceByPath with same-size / shorter / longer / wrong-type replacement, UnsetByPath}, for every container {insert absent field / key / index=len, unset absent}, absent-inner and wrong-kind paths, SetMany over every selection of <=2 sibling paths (present and absent) on the root; id- and name-addressed for Value; histories of length <=2 (thorough <=3), states deduplicated on the decoded model; every transition is executed on the implementation and on the reference model (ref/tbin strict decode + model edit) and compared: bytes decode to the edited model (position of an inserted element free, relative order of the others kept), exist flag, error presence, failed op leaves bytes unchanged, a Fork taken before the op is unchanged and yields the same result when the op is replayed on it. A case = one (initial value, api) search; non-trivial = it executed at least one transition. Later additions: negative-key variants of every map, mixed key spellings in SetMany, all children of a 70-field struct in one SetMany. Round 9: key steps of the wrong kind on maps."
+	return "explicit-state BFS over edit histories on the real generic.Node / generic.Value: initial states = every shape of T(1) u T(2) (thorough + T(3) subset) x container size 0..2 (thorough 0..3); operations at every state = for every node position {SetByPath, ReplaceByPath with same-size / shorter / longer / wrong-type replacement, UnsetByPath}, for every container {insert absent field / key / index=len, unset absent}, absent-inner and wrong-kind paths, SetMany over every selection of <=2 sibling paths (present and absent) on the root; id- and name-addressed for Value; histories of length <=2 (thorough <=3), states deduplicated on the decoded model; every transition is executed on the implementation and on the reference model (ref/tbin strict decode + model edit) and compared: bytes decode to the edited model (position of an inserted element free, relative order of the others kept), exist flag, error presence, failed op leaves bytes unchanged, a Fork taken before the op is unchanged and yields the same result when the op is replayed on it. A case = one (initial value, api) search; non-trivial = it executed at least one transition. Later additions: negative-key variants of every map, mixed key spellings in SetMany, all children of a 70-field struct in one SetMany. Round 9: key steps of the wrong kind on maps. Round 10: SetMany with paths of the wrong kind."
 }
 func (check) Assumptions() []string {
 	return []string{"reference = ref/tbin strict decoder + 60-line model of set/insert/unset", "an index greater than the container length is not a valid path (outside the statement) and is not in the alphabet", "the position at which a missing element is inserted is left free by the statement; only count, membership and relative order of previous elements are required"}
